@@ -39,7 +39,14 @@ def run(cases, workdir, want_model=True):
         if r.m is not None:
             hv, mv = r.hv[0], r.mv[0]
             # the implementation's plain errors and the model's are one class; messages are not compared
-            if hv != mv:
+            if hv == "err" and mv == "ok" and "Could not parse generated Rust code" in str(r.hv[1]) and \
+                    any((sx.tagged(it, "opaque") or [None])[0] is not None and
+                        (snips.get(sx.tagged(it, "opaque")[0]) or ["x"])[0] != "file"
+                        for f in P.files_of(r.m).values() for it in f[2:]):
+                # the user's prologue/epilogue text is not Rust: the real back end refuses to pretty-print, the
+                # model (for which that text is opaque) cannot know -- not a disagreement about pyxis
+                r.diffs.append(("opaque_unparsable", "user-supplied backend text does not parse as Rust"))
+            elif hv != mv:
                 r.diffs.append(("verdict", "impl %s (%s) vs model %s (%s)" % (hv, str(r.hv[1])[:300], mv, str(r.mv[1])[:200])))
             elif hv == "noprogress" and r.hv[1] != r.mv[1]:
                 r.diffs.append(("noprogress_set", "impl %s vs model %s" % (r.hv[1], r.mv[1])))
